@@ -253,3 +253,24 @@ _SUBARRAY_BYTES = """    pub fn subarray(&self, start: usize, count: usize) -> R
 
 """
 m("x5-subarray-slice-of-count-bytes", "C01", VM, _REF_AT, _SUBARRAY_BYTES.replace("NBYTES", "count.min(nbytes)") + _REF_AT, "?")
+
+_SUBSLICE = "    pub fn subslice(&self, offset: usize, count: usize) -> Result<Self> {"
+_FILL = """    pub fn fill_bytes(&self, value: u8) {
+        let pattern = [value; 256];
+        let mut done = 0usize;
+        while done GUARD self.size {
+            let n = NEXPR;
+            let chunk = self.subslice(done, CHUNKLEN).unwrap();
+            chunk.copy_from(&pattern[..n]);
+            UPDATE
+        }
+    }
+
+"""
+def _fill(guard="<", nexpr="min(pattern.len(), self.size - done)", chunklen="n", update="done += n;"):
+    return _FILL.replace("GUARD", guard).replace("NEXPR", nexpr).replace("CHUNKLEN", chunklen).replace("UPDATE", update) + _SUBSLICE
+# the correct version must stay silent (replayed with the benign additions); these three are wrong in one place each
+m("x5-fill-guard-le-spins", "C07", VM, _SUBSLICE, _fill(guard="<="), "?")
+m("x5-fill-unwrap-overruns", "C07", VM, _SUBSLICE, _fill(chunklen="pattern.len()"), "?")
+m("x5-fill-update-skipped", "C07", VM, _SUBSLICE, _fill(update="if n == pattern.len() { done += n; }"), "?")
+m("x5-fill-step-may-be-zero", "C07", VM, _SUBSLICE, _fill(nexpr="min(pattern.len(), self.size - done) & !7"), "?")
